@@ -336,6 +336,23 @@ func (m *vmMachine) newRoot() mm.Frame {
 	return f
 }
 
+// freshRoot checks a top-level table that PageDirectoryTable.Init has just set up in frame f:
+// every entry empty except the last one, which holds exactly the frame's own address with the
+// present and writable bits - nothing of what the frame held before.
+func (m *vmMachine) freshRoot(f mm.Frame) string {
+	b := m.frameBytes(f)
+	for i := 0; i < 511; i++ {
+		if e := *(*uint64)(unsafe.Pointer(&b[i*8])); e != 0 {
+			return fmt.Sprintf("entry %d of the new top-level table is %#x, not empty (the frame was not cleared)", i, e&^uint64(vmFrameMask)|uint64(m.frameTag(uintptr(e))))
+		}
+	}
+	got := *(*uintptr)(unsafe.Pointer(&b[511*8]))
+	if want := f.Address() | uintptr(FlagPresent|FlagRW); got != want {
+		return fmt.Sprintf("the recursive entry of the new top-level table is %#x, want its own frame with exactly present|writable (%#x): bits of the frame's previous contents survive", uint64(got)&^uint64(vmFrameMask)|uint64(m.frameTag(got)), uint64(want)&^uint64(vmFrameMask)|uint64(m.frameTag(want)))
+	}
+	return ""
+}
+
 // hw translates a virtual address from the current CR3 the way the MMU does:
 // present bit and bits 12..51 of each entry, four levels.
 func (m *vmMachine) hw(virt uintptr) (uintptr, bool) {
